@@ -126,3 +126,12 @@ claim("C18",
       "sequential handler (failures inside map/parallel branches: C06 executor lemmas); boto errors follow botocore's ClientError.response contract; json model",
       "CrossHair symbolic execution (z3) of the real wrapper + LambdaClient + coroutine-lowered checkpoint thread with fault injection",
       "DESIGN.md §3 C18")
+claim("C17",
+      "Composed symbolic runs of the real wrapper/context/logger/state: a 6-operation program with 12 log sites (top level, inside steps, inside a child context) is "
+      "interrupted at the wait/callback suspension and optionally by a process crash after API call 1..5 of invocation 1..2, S1 ok/failed-and-caught, S3 "
+      "immediate/retried, history page size none/1/2/3; for EVERY log call executed by EVERY invocation: emitted <=> no previously-completed operation lies after "
+      "it in program order; first invocation emits all; records carry ARN / parentId / operationId / attempt. All paths exhausted.",
+      "one template (sequential + child context + callback; map/parallel blocks are treated as units by the property and are exercised through the child-context "
+      "mechanism they share); backend model; capturing logger via set_logger",
+      "CrossHair symbolic execution (z3) of the real wrapper + Logger + track_replay over a stateful backend with crash/pagination injection",
+      "DESIGN.md §3 C17")
